@@ -269,7 +269,7 @@ fn lenient_doc(kind: u8, p: &HPick) -> (String, Option<bool>) {
     match kind % 14 {
         0 => (format!("<svg>{body}"), Some(true)),                                     // unclosed root
         1 => (format!("<svg><g>{body}</svg>"), Some(true)),                            // mismatched end
-        2 => (format!("<svg>{body}</svg>trailing text"), Some(true)),                  // text after root
+        2 => (format!("<svg>{body}</svg>trailing text"), Some(false)),                 // text after root: not a single-rooted input
         3 => (format!("<svg>{body}</svg><svg>{body}</svg>"), Some(false)),             // two roots
         4 => (format!("<svg><rect wh=\"5\" wh=\"6\"/></svg>"), Some(true)),            // duplicate attr
         5 => (format!("<svg xmlns=\"{SVG_NS}\"><rect a=\"1\" a=\"2\"/></svg>"), Some(true)),
@@ -397,8 +397,16 @@ impl Property for C02 {
             }
             Err((clause, detail)) => {
                 let feat = if clause.contains("wellformed") { feature_of(&detail, &out) } else { String::new() };
+                // narrow signature for the listed finding: an element left unclosed in the *input*
+                // is emitted unclosed
+                let input_unclosed = matches!(sxml::parse_content(&case.input), Err(e) if e.msg.starts_with("unclosed element"));
+                let sig = if clause.contains("wellformed") && input_unclosed {
+                    "c02:unclosed-element-in-input".to_string()
+                } else {
+                    format!("c02:{clause}:{feat}")
+                };
                 Verdict::fail(
-                    format!("c02:{clause}:{feat}"),
+                    sig,
                     format!("{detail}\n--- input ---\n{}\n--- config ---\n{:?}\n--- output ---\n{}", case.input, case.cfg, crate::run::trunc(&out, 3000)),
                     vec![],
                     1,
